@@ -462,8 +462,14 @@ func init() {
 				}
 				d.close(i%2 == 0)
 			}
-			time.Sleep(600 * time.Millisecond)
-			fd1, g1 := countFDs(), runtime.NumGoroutine()
+			fd1, g1 := 0, 0
+			for k := 0; k < 60; k++ { // teardown is asynchronous: wait (up to 6 s) until the counts are back, report what is left
+				time.Sleep(100 * time.Millisecond)
+				fd1, g1 = countFDs(), runtime.NumGoroutine()
+				if fd1-fd0 <= 5 && g1-g0 <= 10 {
+					break
+				}
+			}
 			l.rec.log(canary.idx, "D", "leak", "fds", fd1-fd0, "goroutines", g1-g0, "after", "150-connections-that-end-before-joining")
 		}
 		probe("150-connections-that-end-before-joining")
